@@ -440,6 +440,65 @@ def concurrent_case(ctx, objs, cid):
         ctx.held(fingerprint=f"conc|{n}|{kind}|{prior}|{outs}|{cmds}", nontrivial=True)
 
 
+def deletion_case(ctx, objs, k):
+    """The previous output is renamed to a temporary name and deleted by a background task. With the H1
+    pause hook that task is held just before it unlinks the file: the link (as seen by its caller: the
+    wild command returning) must not complete while the temporary name still exists."""
+    import time
+    from vlib import faults
+    threads, fork, kind = [("", "", "shared"), ("--threads=4", "--no-fork", "shared"), ("--threads=16", "", "shared"),
+                           ("", "--no-fork", "exe-no-update-in-place"), ("--threads=2", "", "shared")][k % 5]
+    cid = f"del{k}"
+    sb = ctx.scratch.dir("sb", cid)
+    if kind == "shared":
+        shutil.copy(objs["so1"], os.path.join(sb, "a.o"))
+        shutil.copy(objs["so2"], os.path.join(sb, "b.o"))
+        out = "lib.so.1"
+        a1, a2 = ["a.o", "-shared", "-o", out], ["b.o", "-shared", "-o", out]
+    else:
+        for n in ("main", "f1", "f2"):
+            shutil.copy(objs[n], os.path.join(sb, n + ".o"))
+        out = "prog"
+        a1, a2 = ["main.o", "f1.o", "-o", out], ["main.o", "f2.o", "--no-update-in-place", "-o", out]
+    extra = [x for x in (threads, fork) if x]
+    pre = run([tools.wild(), *a1, *extra], cwd=sb, timeout=120)
+    if not pre.ok:
+        return ctx.inconclusive("preparatory link failed")
+    time.sleep(0.3)       # a forked preparatory link finishes its own clean-up in the background
+    before = set(os.listdir(sb))
+    s = faults.PauseSession([*a2, *extra], sb, ["verif: delete old output"], timeout=120)
+    s.start()
+    hit = s.wait(timeout=60)
+    if hit is None:
+        s.finish(5)
+        ctx.note("deletion-task-not-reached:" + kind)
+        return ctx.inconclusive("the background deletion task was not reached (single-threaded path or no rename)")
+    # the deletion task is held; does the link command return anyway?
+    t0 = time.time()
+    while time.time() - t0 < 3.0 and s._thr.is_alive():
+        time.sleep(0.02)
+    ended_while_held = not s._thr.is_alive()
+    stray = sorted(set(os.listdir(sb)) - before - {"notify.fifo", "resume.fifo"})
+    s.resume(timeout=1 if ended_while_held else 30)
+    res = s.finish(60)
+    ctx.note(f"deletion-case:{kind}:{threads or 'default'}:{fork or 'fork'}")
+    if ended_while_held and stray:
+        ctx.violation(f"link-returns-before-old-output-is-deleted:{fork or 'fork'}",
+                      f"the link command returned (rc={res.rc if res else '?'}) while the renamed previous output {stray} still "
+                      f"existed: its background deletion had not run yet (held by the pause hook); nothing waits for it "
+                      f"({kind}, {threads or 'default threads'})", case=cid, files={"sandbox": sb})
+        return
+    if res is None or res.timed_out or not res.ok:
+        return ctx.inconclusive("watchdog / link failed in the deletion case")
+    time.sleep(0.2)
+    left = sorted(set(os.listdir(sb)) - before - {"notify.fifo", "resume.fifo"})
+    if left:
+        ctx.violation("stray-file-after-held-deletion", f"{left} left behind after the link ({kind})", case=cid, files={"sandbox": sb})
+        return
+    ctx.held(fingerprint=f"{cid}:{kind}:{threads}:{fork}", nontrivial=True,
+             sample={"case": cid, "held_at": hit, "command_waited_for_deletion": True} if k == 0 else None)
+
+
 PINNED = [
     dict(out="lib.so", kind="shared", mode="default", prior="present", threads="default", fork="fork", mmap="default", side=[], fail=False),
     dict(out="prog.exe", kind="exe", mode="--no-update-in-place", prior="present", threads="default", fork="fork", mmap="default",
@@ -469,15 +528,19 @@ def main(ctx):
     n = ctx.pick(70, 900)
     nc = ctx.pick(10, 100)
     jobs = [("p", k) for k in range(len(PINNED))] + [("c", i) for i in range(n)] + [("x", i) for i in range(nc)]
+    jobs += [("d", k) for k in range(ctx.pick(5, 25))]
     if ctx.replay is not None:
         c = str(ctx.replay.get("case"))
-        jobs = [("p", int(c[6:]))] if c.startswith("pinned") else [("x", int(c[4:]))] if c.startswith("conc") else [("c", int(c))]
+        jobs = ([("p", int(c[6:]))] if c.startswith("pinned") else [("x", int(c[4:]))] if c.startswith("conc") else
+                [("d", int(c[3:]))] if c.startswith("del") else [("c", int(c))])
 
     def go(j):
         if j[0] == "p":
             one_case(ctx, objs, f"pinned{j[1]}", forced=PINNED[j[1]])
         elif j[0] == "x":
             concurrent_case(ctx, objs, j[1])
+        elif j[0] == "d":
+            deletion_case(ctx, objs, j[1])
         else:
             one_case(ctx, objs, j[1])
     pmap(go, jobs)
